@@ -62,7 +62,7 @@ PROPS = {
     "C11": P(["C11"], ["DecProofs.Properties.C11", "DecProofs.Core.Finish", "DecProofs.Properties.C11Q"]),
     "C12": P(["C12"], ["DecProofs.Properties.C12"]),
     "C13": P(["C13"], ["DecProofs.Properties.C13", "DecProofs.Core.Codec", "DecProofs.Properties.C13Codec"]),
-    "C14": P(["C14"], ["DecProofs.Properties.C14", "DecProofs.Properties.JudgeSound", "DecProofs.Properties.C14Scopes"], static=["DecProofs.Static.FlagAccess"]),
+    "C14": P(["C14", "C14T"], ["DecProofs.Properties.C14", "DecProofs.Properties.JudgeSound", "DecProofs.Properties.C14Scopes"], static=["DecProofs.Static.FlagAccess"]),
     "C15": P(["C15"], ["DecProofs.Properties.C15", "DecProofs.Properties.JudgeSound"], quick=1200000, static=["DecProofs.Static.Inventory"],
              extra_corpus=["C01", "C02", "C04"]),
     "C16": P(["C16"], ["DecProofs.Properties.C16", "DecProofs.Core.Cmp", "DecProofs.Properties.C16Order"]),
@@ -79,3 +79,7 @@ for _pid, _p in PROPS.items():
 
 # secondary build configuration of C02 (thorough tier): the tininess-after-rounding cargo feature
 PROPS["C02"]["feature_configs"] = [{"feature": "tiny_after", "judge_tiny_after": True}]
+
+# C06: to_int(from_int(n)) = n with no flag for EVERY i32 and u32 n and all ten conversions back (thorough: all 2^32; quick: every 4096th)
+PROPS["C06"]["supporting_runs"] = [{"cmd": "int-roundtrip", "quick_stride": 4096,
+    "what": "for every n: From<i32>/From<u32> gives coefficient |n| exponent 0, and each of the 10 conversions back returns n raising nothing; failures are handed to the judge"}]
